@@ -41,6 +41,11 @@ pub enum Op {
     CInto { c: usize, h: usize },
     DropC { c: usize },
     SetGen { v: u64 },
+    /// the same, for a second pointee type sharing the pool of addresses (handles `k<i>`, containers `d<i>`)
+    New1 { h: usize, val: u64 },
+    Mk1 { c: usize, h: usize },
+    Store1 { c: usize, h: usize },
+    DropH1 { h: usize },
 }
 
 impl Op {
@@ -77,6 +82,10 @@ impl Op {
             CInto { c, h } => format!("cinto c{} h{}", c, h),
             DropC { c } => format!("dropc c{}", c),
             SetGen { v } => format!("setgen {}", v),
+            New1 { h, val } => format!("new1 k{} {}", h, val),
+            Mk1 { c, h } => format!("mk1 d{} k{}", c, h),
+            Store1 { c, h } => format!("store1 d{} k{}", c, h),
+            DropH1 { h } => format!("droph1 k{}", h),
         }
     }
 
@@ -115,6 +124,10 @@ impl Op {
             ["cinto", c, h] => Op::CInto { c: r(c)?, h: r(h)? },
             ["dropc", c] => Op::DropC { c: r(c)? },
             ["setgen", v] => Op::SetGen { v: v.parse().ok()? },
+            ["new1", h, v] => Op::New1 { h: r(h)?, val: v.parse().ok()? },
+            ["mk1", c, h] => Op::Mk1 { c: r(c)?, h: r(h)? },
+            ["store1", c, h] => Op::Store1 { c: r(c)?, h: r(h)? },
+            ["droph1", h] => Op::DropH1 { h: r(h)? },
             _ => return None,
         })
     }
@@ -172,6 +185,8 @@ pub struct GenCfg {
     pub setgen: Option<u64>,
     /// inject panics in user code (rcu closure, pointee destructor)
     pub panics: bool,
+    /// a container of a second pointee type (same pool of addresses) written by some threads
+    pub second_type: bool,
 }
 
 /// Type-directed generation: registers are tracked abstractly per thread so that most operations
@@ -189,6 +204,10 @@ pub fn generate(rng: &mut Rng, cfg: &GenCfg) -> Program {
             next_val += 1;
         }
         setup.push(Op::Mk { c, h: 0 });
+    }
+    if cfg.second_type {
+        setup.push(Op::New1 { h: 0, val: 5000 });
+        setup.push(Op::Mk1 { c: 0, h: 0 });
     }
     const HPT: usize = 6; // handle registers per thread
     const GPT: usize = 14; // guard registers per thread
@@ -215,6 +234,14 @@ pub fn generate(rng: &mut Rng, cfg: &GenCfg) -> Program {
         let n = rng.range(cfg.ops.0, cfg.ops.1 + 1);
         let total: u32 = cfg.w.iter().sum();
         for _ in 0..n {
+            if cfg.second_type && rng.chance(1, 3) {
+                // a write to the container of the other pointee type (fresh value: addresses freed
+                // by either type are reused by both)
+                ops.push(Op::New1 { h: 1 + t, val: next_val * 100 + 7 });
+                next_val += 1;
+                ops.push(Op::Store1 { c: 0, h: 1 + t });
+                continue;
+            }
             let mut r = rng.range(0, total as usize) as u32;
             let mut kind = 0;
             for (k, w) in cfg.w.iter().enumerate() {
